@@ -5,7 +5,7 @@ from typing import Any, Dict, List
 
 import numpy as np
 
-from ..c09_gen import STEERS, apply_extras, case_strategy
+from ..c09_gen import STEERS, apply_extras, case_strategy, resolve_named_ops
 from ..envdrive import Driver, shipped_case_strategy
 from ..harness import CaseResult, Ctx, hyp_run
 from ..ref_obs import Leaf, Opt, RefReader, Unsupported, compare, count_leaves, count_off_default
@@ -68,6 +68,9 @@ def run_case(case: Dict) -> CaseResult:
     res = CaseResult()
     d = Driver(case)
     apply_extras(d.cfg, d.meta, case.get("extra_actions"))  # C09's own ACL action variants (see c09_gen)
+    if any(op[0] == "act" for op in case["ops"]):
+        # named ops ['act', action, options] -> ['step', index in this build's action map]
+        d.case = dict(case, ops=resolve_named_ops(case["ops"], d.cfg, d.meta))
     try:
         reader = RefReader(d.cfg)
     except Unsupported:
@@ -130,7 +133,7 @@ def run_case(case: Dict) -> CaseResult:
         if reader.pairs:
             st["pairs"] += 1
         for k in reader.masked:
-            if k.startswith(("disabled-nic", "acl-")):
+            if k.startswith(("disabled-nic", "acl-", "boot-")):
                 flags.add(k)
             else:
                 masked.add(k + (":gated" if gated.get(k) else ""))
